@@ -28,30 +28,23 @@ theorem execute_spec {p : Program} (wf : WF p) (sh : Shape p) {q : Q} {k : Key}
     obtain ⟨i1, f1, t1, a1, _, tr⟩ := hrun
     simp only at i1 f1 t1 a1 tr ⊢
     have hbad1 : Broken s1 k := hbad.frame inv f1 (t1.1 k (Nat.le_refl _))
-    have hpj : NoProjOverProj p → d.kind = .projection → ∀ d' o nd, (d', o) ∈ a.deps →
-        s1.nodes d' = some nd → nd.kind = .firewall := by
-      intro pf hkp d' o nd hm hnd
-      have := runProg_reads q (fun x => kindOf p x = some .firewall) d.prog {} s (pf k d hp hkp)
-        (fun e he => by cases he) _ hr (d', o) hm
-      obtain ⟨dd, hpd, hkd, _⟩ := i1.kind d' nd hnd
-      simp only [kindOf, hpd, Option.map_some, Option.some.injEq] at this
-      rw [← hkd]; exact this
     have hpk : d.kind = .projection → ∀ d' o nd, (d', o) ∈ a.deps → s1.nodes d' = some nd →
-        nd.kind = .firewall ∨ nd.kind = .projection := by
+        nd.kind = .firewall ∨ (nd.kind = .projection ∧ IsStaticKey p d') := by
       intro hkp d' o nd hm hnd
-      have := runProg_reads q (fun x => kindOf p x = some .firewall ∨ kindOf p x = some .projection)
-        d.prog {} s ((wf k d hp hki hke).2 hkp) (fun e he => by cases he) _ hr (d', o) hm
+      have := runProg_reads q
+        (fun x => kindOf p x = some .firewall ∨ (kindOf p x = some .projection ∧ IsStaticKey p x))
+        d.prog {} s (sh k d hp hkp) (fun e he => by cases he) _ hr (d', o) hm
       obtain ⟨dd, hpd, hkd, _⟩ := i1.kind d' nd hnd
       simp only [kindOf, hpd, Option.map_some, Option.some.injEq] at this
       rw [← hkd]; exact this
-    have hst : StaticProj p → d.kind = .projection → ∀ ks, ProgStatic d.prog ks →
+    have hst : d.kind = .projection → ∀ ks, ProgStatic d.prog ks →
         a.deps.map (·.1) = recordKeys ks [] ∧ a.tfc = foldTfc (front s1) ks [] := by
-      intro _ _ ks hks
+      intro _ ks hks
       have := runProg_static hq d.prog ks {} s (wf k d hp hki hke).1 hks inv (AccOK.nil p k s)
       rw [hr] at this
       exact this
     obtain ⟨i3, f13, t13, n3k, e3⟩ := publish_spec hp hki hke i1 (hwhy.frame f1 t1) hbad1.not_solid
-      (fun n hn _ => hbad1.not_nGood hn) a1 tr hpj hpk hst
+      (fun n hn _ => hbad1.not_nGood hn) a1 tr hpk hst
     refine ⟨i3, f1.trans f13, (t1.mono (by komega)).trans t13, ?_, _, n3k, rfl, e3.symm⟩
     apply cur_exec wf hp hki hke tr
     intro d' o' hm
@@ -96,37 +89,31 @@ theorem executeExt_spec {p : Program} (wf : WF p) {k : Key} {d : NodeDef}
       · subst e; rw [n3k] at hx; cases hx
         exact ⟨d, hp, by rw [hi, nnk], fun _ => ⟨nnd, nnt⟩⟩
       · rw [n3o x e] at hx; exact inv.kind x nx hx
-    · intro pa x nx hx hkx d' o' nd' hm hnd'
-      by_cases e : x = k
-      · subst e; rw [n3k] at hx; cases hx; rw [nnk] at hkx; cases hkx
-      · rw [n3o x e] at hx
-        rw [n3o d' (notDep x nx d' o' hx hm)] at hnd'
-        exact inv.pjFw pa x nx hx hkx d' o' nd' hm hnd'
     · intro x nx hx hkx d' o' nd' hm hnd'
       by_cases e : x = k
       · subst e; rw [n3k] at hx; cases hx; rw [nnk] at hkx; cases hkx
       · rw [n3o x e] at hx
         rw [n3o d' (notDep x nx d' o' hx hm)] at hnd'
         exact inv.pjKinds x nx hx hkx d' o' nd' hm hnd'
-    · intro sp x nx dx ks hx hpx hkx hstx
+    · intro x nx dx ks hx hpx hkx hstx
       by_cases e : x = k
       · subst e; rw [n3k] at hx; cases hx; rw [nnk] at hkx; cases hkx
       · rw [n3o x e] at hx
-        refine inv.pjStat_transfer sp ?_ hx hpx hkx hstx
+        refine inv.pjStat_transfer ?_ hx hpx hkx hstx
         intro d' nd hnd _
         have : d' ≠ k := fun e' => by subst e'; rw [hn] at hnd; cases hnd
         simp only [front, n3o d' this]
-    · intro sp x nx g o gn hx hm hg hkg
+    · intro x nx g o gn hx hm hg hkg hsg
       by_cases e : x = k
       · subst e; rw [n3k] at hx; cases hx; rw [nnd] at hm; cases hm
       · rw [n3o x e] at hx
         rw [n3o g (notDep x nx g o hx hm)] at hg
-        exact inv.pjSeen sp x nx g o gn hx hm hg hkg
-    · intro sp g gn hg hkg hpg
+        exact inv.pjSeen x nx g o gn hx hm hg hkg hsg
+    · intro g gn hg hkg hsg hpg
       by_cases e : g = k
       · subst e; rw [n3k] at hg; cases hg; rw [nnk] at hkg; cases hkg
       · rw [n3o g e] at hg
-        obtain ⟨c, o, hm, hc⟩ := inv.pjCause sp g gn hg hkg hpg
+        obtain ⟨c, o, hm, hc⟩ := inv.pjCause g gn hg hkg hsg hpg
         refine ⟨c, o, hm, ?_⟩
         simpa [hasPending, n3o c (notDep g gn c o hg hm)] using hc
     · intro x nx hx hkx d' o' nd' hm hnd' hne
@@ -261,7 +248,7 @@ theorem queryQ_spec {p : Program} (wf : WF p) (sh : Shape p) :
         obtain ⟨d, hp, hki, hleaf⟩ := inv.kind k n hn
         rw [hp]
         simp only
-        have hrep := repairDeps_spec sh hq (!ped && decide (n.kind ≠ .projection)) n.deps false [] s inv hn (fun _ h => h)
+        have hrep := repairDeps_spec hq (!ped && decide (n.kind ≠ .projection)) n.deps false [] s inv hn (fun _ h => h)
         cases hr : repairDeps (queryQ p fuel ped) k (!ped && decide (n.kind ≠ .projection)) n.seen n.deps false [] s with
         | error e => rw [hr] at hrep; simpa [Sat] using hrep
         | ok r =>
@@ -301,13 +288,11 @@ theorem queryQ_spec {p : Program} (wf : WF p) (sh : Shape p) :
               | false => rw [hmv] at hne; simp [cleanNode] at hne
               | true =>
                 obtain ⟨wd, wo, wnd, wm, wnode, wk, wne⟩ := hw' hmv
-                rcases sh with pa | sp
-                · exact wk (i1.pjFw pa k n k1 hkp wd wo wnd wm wnode)
-                · rcases i1.pjKinds k n k1 hkp wd wo wnd wm wnode with h | h
-                  · exact wk h
-                  · exact wne (i1.pjSeen sp k n wd wo wnd k1 wm wnode h).symm
+                rcases i1.pjKinds k n k1 hkp wd wo wnd wm wnode with h | ⟨h, hs⟩
+                · exact wk h
+                · exact wne (i1.pjSeen k n wd wo wnd k1 wm wnode h hs).symm
             rw [if_neg hnot]
-            obtain ⟨i2, f2, t2, c2, hnode⟩ := clean_spec wf sh i1 k1 hv1 moved cl hall hw'
+            obtain ⟨i2, f2, t2, c2, hnode⟩ := clean_spec wf i1 k1 hv1 moved cl hall hw'
             exact ⟨i2, f1.trans f2, t1.trans t2, by rw [← f1.cur]; exact c2, hnode⟩
 
 end Qbice.CoreFw
